@@ -68,8 +68,7 @@ func (c *Ctx) StartCall(budget time.Duration) {
 	if c.ws == nil {
 		return
 	}
-	c.ws.budget.Store(int64(budget))
-	c.ws.caseStart.Store(int64(cpuTime()))
+	c.ws.setWindow(int64(budget))
 }
 
 func (c *Ctx) SetPhase(s string) { c.phase.Store(s) }
@@ -165,10 +164,18 @@ func cpuTime() time.Duration {
 
 // worker state shared with the watchdog goroutine
 type workerState struct {
-	curIndex  atomic.Int64
-	caseStart atomic.Int64 // cpu ns at case start
-	budget    atomic.Int64 // ns
-	busy      atomic.Bool
+	curIndex atomic.Int64
+	// window is the CPU-time window of the call in progress: its budget and the process CPU time
+	// at its start, replaced as ONE value. (Two separate atomics let the watchdog pair the CPU
+	// already used by a long, legitimate call with the small budget of the call after it.)
+	window atomic.Pointer[callWindow]
+	busy   atomic.Bool
+}
+
+type callWindow struct{ budget, start int64 }
+
+func (ws *workerState) setWindow(budget int64) {
+	ws.window.Store(&callWindow{budget: budget, start: int64(cpuTime())})
 }
 
 // RunWorker executes cases from..to (step stride) of engine e in this process.
@@ -220,8 +227,12 @@ func RunWorker(e Engine, c *Ctx, from, to, stride int, outPath, progressPath, ha
 				}
 				lastCPU, lastMove = cpuTime(), time.Now()
 			}
-			used := int64(cpuTime()) - st.caseStart.Load()
-			if b := st.budget.Load(); b > 0 && used > b {
+			w := st.window.Load()
+			if w == nil {
+				continue
+			}
+			used, b := int64(cpuTime())-w.start, w.budget
+			if b > 0 && used > b && st.window.Load() == w {
 				idx := int(st.curIndex.Load())
 				buf := make([]byte, 1<<20)
 				n := runtime.Stack(buf, true)
@@ -246,8 +257,7 @@ func RunWorker(e Engine, c *Ctx, from, to, stride int, outPath, progressPath, ha
 			budget = budgeter.CPUBudget(c.Tier, idx)
 		}
 		st.curIndex.Store(int64(idx))
-		st.budget.Store(int64(budget))
-		st.caseStart.Store(int64(cpuTime()))
+		st.setWindow(int64(budget))
 		st.busy.Store(true)
 		panicked, key, text := Guard(func() { e.Run(c, idx) })
 		st.busy.Store(false)
